@@ -110,6 +110,9 @@ type Interp struct {
 	unwind    int
 	fnSeen    map[*ssa.Function]bool
 	opaqueSeq int
+	pcSet     map[int]bool
+	bind      map[int]*Term
+	bindMemo  map[int]*Term
 	maxPreempt int
 	ctxSeq    int
 	errTypes  map[string]types.Type
@@ -289,6 +292,15 @@ func (in *Interp) callIntrinsicValue(caller *frame, f *FuncV, args []Value) Valu
 		args = append([]Value{f.recv}, args...)
 	}
 	return fn(in, caller, nil, args)
+}
+
+// callSSABody interprets fn's real body even if an intrinsic is registered.
+func (in *Interp) callSSABody(caller *frame, fn *ssa.Function, args []Value) Value {
+	fi := in.info(fn)
+	save := fi.intr
+	fi.intr, fi.intrK = nil, true
+	defer func() { fi.intr = save }()
+	return in.callSSA(caller, 0, fn, args, nil)
 }
 
 func (in *Interp) callSSA(caller *frame, pos token.Pos, fn *ssa.Function, args []Value, free []Value) Value {
@@ -751,9 +763,20 @@ func (in *Interp) storeThrough(p Value, v Value) {
 			}
 			if allScalar && len(c.elems) <= 64 {
 				w := c.idx.Width()
+				if in.watch != nil && len(c.elems) > 0 && c.elems[0].par != nil && in.watch[c.elems[0].par] {
+					// one mutation query for the whole symbolic store
+					diff := TT.False
+					for _, e := range c.elems {
+						diff = BOr(diff, BNot(Eq(e.v.(*Term), nv)))
+					}
+					in.watchQuery(c.elems[0], diff)
+				}
+				saveW := in.watch
+				in.watch = nil
 				for i, e := range c.elems {
 					in.set(e, Ite(Eq(c.idx, Const(w, uint64(i))), nv, e.v.(*Term)))
 				}
+				in.watch = saveW
 				return
 			}
 		}
@@ -1121,6 +1144,9 @@ func (in *Interp) indexAddr(fr *frame, x *ssa.IndexAddr) Value {
 		return elems[idx.Uint()]
 	}
 	ln := int(in.concInt(n, "length for symbolic index"))
+	if sv, ok := base.(*SliceV); ok && !sv.len_.IsConst() {
+		sv.len_ = intT(int64(ln))
+	}
 	return &SymPtr{elems: elems[:ln], idx: idx}
 }
 
